@@ -123,8 +123,8 @@ def unsigned? (cs : List Char) : Option Rat :=
 
 /-- `DECIMAL`, the whole of `cs` -/
 def decimal? : List Char → Option Rat
-  | '-' :: body => (unsigned? body).map (fun v => -v)
-  | cs => unsigned? cs
+  | [] => none
+  | c :: body => if c = '-' then (unsigned? body).map (fun v => -v) else unsigned? (c :: body)
 
 abbrev Bounds := Rat × Rat × Rat × Rat
 
